@@ -42,6 +42,11 @@ func coreC06(tier string) []RunSpec {
 	for k := 0; k < 16; k++ {
 		out = append(out, RunSpec{Profile: "core:racing-reject", Params: map[string]int{"rr": 1, "k": k}})
 	}
+	for sk := 0; sk < 6; sk++ {
+		for k := 0; k < 2; k++ {
+			out = append(out, RunSpec{Profile: "core:semantic-invalid", Params: map[string]int{"sem": 1, "sk": sk, "k": k}})
+		}
+	}
 	return out
 }
 
@@ -496,6 +501,190 @@ func c06RacingReject(rc *RunCtx, m *MW, i int) {
 	}
 }
 
+// c06SemanticInvalid: well-formed requests that must be refused for what they ask (not for their
+// shape), each followed by the dump comparison and by the corrected request, which must succeed.
+func c06SemanticInvalid(rc *RunCtx, m *MW, snapshot func() string, i int) {
+	W, T := rc.W, rc.T
+	kind := rc.P("sk", -1)
+	if kind < 0 {
+		kind = T.Choose("sem.kind", 6)
+	}
+	ks := W.ActiveKeyset("A")
+	a := NewActor(W, fmt.Sprintf("s%d.sem", i))
+	rc.Op(fmt.Sprintf("semantic-invalid kind=%d", kind))
+	var bad, good func() *Resp
+	var after func(r *Resp)
+	var badIns []*HProof // inputs of the invalid request (beliefs, should it be accepted)
+	var badMelt *MeltQuote
+	ok := true
+	rc.Quietly(func() {
+		switch kind {
+		case 0: // melt of SIG_ALL-locked inputs (only a swap may spend them); corrected: swap with signed outputs
+			src := m.TakeFor("A", 40)
+			if src == nil {
+				ok = false
+				return
+			}
+			f := m.feeFor("A", src)
+			louts := W.NewSigAllOutputs(Split(SumH(src)-f), ks.ID)
+			locked, r := m.User.Swap("A", src, louts)
+			if !r.OK() {
+				ok = false
+				return
+			}
+			m.Spent["A"] = append(m.Spent["A"], src...)
+			m.User.remove("A", locked)
+			inv := W.LN.NewExternalInvoice(5000)
+			lq, _ := a.ReqMeltQuote("A", inv.Bolt11, 0)
+			if lq == nil {
+				ok = false
+				return
+			}
+			f2 := m.feeFor("A", locked)
+			outs := W.NewOutputs(Split(SumH(locked)-f2), ks.ID)
+			W.SignOutputsSigAll(outs)
+			badIns, badMelt = locked, lq
+			bad = func() *Resp { return a.Melt("A", lq.ID, locked) }
+			good = func() *Resp {
+				return a.Post("A", "/v1/swap", map[string]any{"inputs": proofsJ(locked), "outputs": outsJ(outs)})
+			}
+			after = func(r *Resp) {
+				sigs, _ := r.Body["signatures"].([]any)
+				m.Spent["A"] = append(m.Spent["A"], locked...)
+				m.User.Purse["A"] = append(m.User.Purse["A"], W.Unblind("A", outs, sigs)...)
+			}
+		case 1, 2: // melt with inputs worth less than amount + reserve + fees; corrected: enough inputs
+			inv := W.LN.NewExternalInvoice(21000)
+			W.LN.Scripts[inv.Hash] = &LNScript{Pay: "succeeded"}
+			lq, _ := a.ReqMeltQuote("A", inv.Bolt11, 0)
+			if lq == nil {
+				ok = false
+				return
+			}
+			enough := m.TakeFor("A", lq.Amount+lq.Reserve)
+			if enough == nil || len(enough) < 2 {
+				ok = false
+				return
+			}
+			short := enough[:len(enough)-1]
+			if kind == 2 {
+				short = enough[1:]
+			}
+			if SumH(short) >= lq.Amount+lq.Reserve+m.feeFor("A", short) {
+				ok = false // still enough: not an invalid request
+				return
+			}
+			badIns, badMelt = short, lq
+			bad = func() *Resp { return a.Melt("A", lq.ID, short) }
+			good = func() *Resp { return a.Melt("A", lq.ID, enough) }
+			after = func(r *Resp) { m.afterMelt("A", lq, enough, r) }
+		case 3: // swap asking for one sat more than inputs minus fees; corrected: exact
+			ins := m.pickProofs("A", 2)
+			f := m.feeFor("A", ins)
+			if ins == nil || SumH(ins) <= f {
+				ok = false
+				return
+			}
+			over := W.NewOutputs(Split(SumH(ins)-f+1), ks.ID)
+			exact := W.NewOutputs(Split(SumH(ins)-f), ks.ID)
+			badIns = ins
+			bad = func() *Resp {
+				return a.Post("A", "/v1/swap", map[string]any{"inputs": proofsJ(ins), "outputs": outsJ(over)})
+			}
+			good = func() *Resp {
+				return a.Post("A", "/v1/swap", map[string]any{"inputs": proofsJ(ins), "outputs": outsJ(exact)})
+			}
+			after = func(r *Resp) {
+				sigs, _ := r.Body["signatures"].([]any)
+				m.User.remove("A", ins)
+				m.Spent["A"] = append(m.Spent["A"], ins...)
+				m.User.Purse["A"] = append(m.User.Purse["A"], W.Unblind("A", exact, sigs)...)
+			}
+		case 4: // mint for more than the paid quote; corrected: the quoted amount
+			mq, _ := a.ReqMintQuote("A", 12, false)
+			if mq == nil {
+				ok = false
+				return
+			}
+			W.LN.PayExternal(mq.Hash)
+			over := W.NewOutputs(Split(13), ks.ID)
+			exact := W.NewOutputs(Split(12), ks.ID)
+			bad = func() *Resp {
+				return a.Post("A", "/v1/mint/bolt11", map[string]any{"quote": mq.ID, "outputs": outsJ(over)})
+			}
+			good = func() *Resp {
+				return a.Post("A", "/v1/mint/bolt11", map[string]any{"quote": mq.ID, "outputs": outsJ(exact)})
+			}
+			after = func(r *Resp) {
+				sigs, _ := r.Body["signatures"].([]any)
+				m.User.Purse["A"] = append(m.User.Purse["A"], W.Unblind("A", exact, sigs)...)
+			}
+		case 5: // swap with one forged input next to valid ones; corrected: only the valid ones
+			ins := m.pickProofs("A", 2)
+			f := m.feeFor("A", ins)
+			if ins == nil || len(ins) < 2 || SumH(ins) <= f {
+				ok = false
+				return
+			}
+			forged := *ins[0]
+			forged.Secret = randHex(32)
+			withForged := []*HProof{ins[1], &forged}
+			badIns = []*HProof{ins[1]}
+			outsBad := W.NewOutputs(Split(SumH(withForged)-m.feeFor("A", withForged)), ks.ID)
+			exact := W.NewOutputs(Split(SumH(ins)-f), ks.ID)
+			bad = func() *Resp {
+				return a.Post("A", "/v1/swap", map[string]any{"inputs": proofsJ(withForged), "outputs": outsJ(outsBad)})
+			}
+			good = func() *Resp {
+				return a.Post("A", "/v1/swap", map[string]any{"inputs": proofsJ(ins), "outputs": outsJ(exact)})
+			}
+			after = func(r *Resp) {
+				sigs, _ := r.Body["signatures"].([]any)
+				m.User.remove("A", ins)
+				m.Spent["A"] = append(m.Spent["A"], ins...)
+				m.User.Purse["A"] = append(m.User.Purse["A"], W.Unblind("A", exact, sigs)...)
+			}
+		}
+	})
+	if !ok || bad == nil {
+		return
+	}
+	run := func(name string, f func() *Resp) *Resp {
+		var r *Resp
+		rc.S.BeginEpisode()
+		rc.S.Run1(fmt.Sprintf("s%d.%s", i, name), W.Ext, func() { r = f() })
+		return r
+	}
+	before := snapshot()
+	r := run("sembad", bad)
+	rc.S.Probe(fmt.Sprintf("c06_semantic_invalid_%d", kind))
+	if r == nil || r.Err != nil {
+		return
+	}
+	fp := fmt.Sprintf("semantic|%d", kind)
+	if r.OK() {
+		// accepting it is another property's business (C02/C04/C12), not C06's
+		rc.S.Probe("c06_semantic_invalid_accepted")
+		if badMelt != nil {
+			m.afterMelt("A", badMelt, badIns, r)
+		} else if badIns != nil {
+			m.User.remove("A", badIns)
+			m.Spent["A"] = append(m.Spent["A"], badIns...)
+		}
+		return
+	}
+	if a2 := snapshot(); a2 != before {
+		W.Book.Violate("C06.changed_state", fp, "semantically invalid request (kind %d) was answered %v but changed state: %s", kind, r, diffDump(before, a2))
+	}
+	rc.Nontrivial = true
+	r2 := run("semgood", good)
+	if r2 == nil || !r2.OK() {
+		W.Book.Violate("C06.valid_rejected", fp, "corrected request rejected after the semantically invalid one (kind %d): %v", kind, r2)
+		return
+	}
+	after(r2)
+}
+
 func c06URLMutants(rc *RunCtx, m *MW, snapshot func() string, i int) {
 	W := m.W
 	T := rc.T
@@ -567,8 +756,12 @@ func runC06(rc *RunCtx) {
 		if !hasOp && T.Chance("bg", 1, 2) {
 			m.Step(T.Pick("bg.kind", 1, 3, 2, 0, 1, 0, 0, 1, 1), false)
 		}
-		if (!hasOp && rc.P("rr", 0) == 0 && T.Chance("urlmutant", 1, 6)) || rc.P("url", 0) == 1 {
+		if (!hasOp && rc.P("rr", 0) == 0 && rc.P("sem", 0) == 0 && T.Chance("urlmutant", 1, 6)) || rc.P("url", 0) == 1 {
 			c06URLMutants(rc, m, snapshot, i)
+			return
+		}
+		if (!hasOp && rc.P("rr", 0) == 0 && T.Chance("semantic", 1, 5)) || rc.P("sem", 0) == 1 {
+			c06SemanticInvalid(rc, m, snapshot, i)
 			return
 		}
 		if (!hasOp && T.Chance("racingreject", 1, 6)) || rc.P("rr", 0) == 1 {
